@@ -394,3 +394,61 @@ def c07(tier):
             "{ if (P0_NEW & 1) { RxV = RsV; } }", "{ P0 = RsV; P1 = RtV; RxV = P0 + P1; }", "{ cancel_slot; }",
             "{ STORE_SLOT_CANCELLED(pkt, hi->slot); }" if False else "{ if (PuV & 1) { RxV = 1; } else { cancel_slot; } }"]
     return out
+
+
+# ------------------------------------------------------------------------------------------ C08
+def c08_subs():
+    subs = dict(c03_subs())
+    subs.update({
+        "vf_br": dict(return_type="int32_t", params=["int32_t a", "int32_t b"],
+                      code="{ if (a > b) { return a - b; } else { return b - a; } }"),
+        "vf_early": dict(return_type="int32_t", params=["int32_t a"], code="{ if (a > 5) { return 1; } return 2; }"),
+        "vf_post": dict(return_type="int32_t", params=["int32_t a"],
+                        code="{ int32_t vf_post_k = a; vf_post_k++; vf_post_k++; return vf_post_k * 3; }"),
+        "vf_nest": dict(return_type="uint32_t", params=["uint32_t a"], code="{ return clz32(a) + vf_br(a, 3); }"),
+        "vf_nest2": dict(return_type="int64_t", params=["int16_t a", "uint8_t b"],
+                         code="{ int64_t vf_nest2_r = vf_post(a) - vf_nest(b); return vf_nest2_r; }"),
+        "vf_loc": dict(return_type="int32_t", params=["int32_t a"], code="{ int32_t n = a * 2; n = n + 1; return n; }"),
+        "vf_narrow": dict(return_type="int8_t", params=["uint16_t a"], code="{ return a + 1; }"),
+        "vf_wide": dict(return_type="uint64_t", params=["int8_t a", "int64_t b"], code="{ return a * b; }"),
+        "vf_two": dict(return_type="uint16_t", params=["uint8_t a", "int16_t b"],
+                       code="{ uint16_t vf_two_t = a; if (b < 0) { vf_two_t = vf_two_t - b; } return vf_two_t; }"),
+        "vf_loop": dict(return_type="uint32_t", params=["uint32_t a"],
+                        code="{ uint32_t vf_loop_s = 0; int vf_loop_i; for (vf_loop_i = 0; vf_loop_i < 3; vf_loop_i++) { vf_loop_s = vf_loop_s * 2 + a; } return vf_loop_s; }"),
+    })
+    return subs
+
+
+C08_PRE = "int32_t n = RsV; int32_t m = RtV; RyV = n;"
+C08_POST = "RyV = RyV * 3 + n; RzV = RzV ^ m;"
+C08_CALLS = ["vf_br(n, m)", "vf_early(n)", "vf_post(n)", "vf_nest(n)", "vf_nest2(n, m)", "vf_loc(m)", "vf_narrow(n)",
+             "vf_wide(n, m)", "vf_two(n, m)", "vf_loop(m)", "clz32(n)", "clo32(m)", "fbrev(n)", "revbit32(m)",
+             "conv_round(n, 2)", "vf_id_int8_t(n)", "vf_conv_int16_t_uint64_t(m)"]
+
+
+def c08(tier):
+    rng = random.Random(seed() * 7919 + 8)
+    out = []
+    # deterministic part (seed independent)
+    for c in C08_CALLS:
+        out.append(f"{{ {C08_PRE} RyV = {c}; {C08_POST} }}")
+        out.append(f"{{ {C08_PRE} RxxV = {c}; {C08_POST} }}")
+        out.append(f"{{ {C08_PRE} int32_t r1 = {c}; int32_t r2 = clz32(m); RyV = r1 - r2; {C08_POST} }}")
+        out.append(f"{{ {C08_PRE} if ({c} > 3) {{ RyV = {c}; }} {C08_POST} }}")
+        out.append(f"{{ {C08_PRE} RyV = {c} + {c}; {C08_POST} }}")
+    # seeded part: sub-routines with an open finding (early return, colliding local) are kept out of it
+    ok = [c for c in C08_CALLS if not c.startswith(("vf_early", "vf_loc"))]
+    pairs = list(itertools.product(ok, ok))
+    if tier != "thorough":
+        pairs = rng.sample(pairs, 90)
+    for a, b in pairs:
+        out.append(f"{{ {C08_PRE} RyV = {a} + {b}; {C08_POST} }}")
+    n3 = 300 if tier == "thorough" else 40
+    for _ in range(n3):
+        cs = [rng.choice(ok) for _ in range(rng.choice([3, 4]))]
+        out.append(f"{{ {C08_PRE} RxxV = " + " + ".join(cs) + f"; {C08_POST} }}")
+    for a, b in (pairs if tier == "thorough" else pairs[:60]):
+        f = a.split("(")[0]
+        if a.count(",") == 0:
+            out.append(f"{{ {C08_PRE} RyV = {f}({b}); {C08_POST} }}")
+    return out
